@@ -80,7 +80,9 @@ ASSUMPTIONS = [
     "initialised at the start of the subroutine of their flush segment",
     "register handles from new_register()/measure(store_array=False) are created at top level (a register set in a "
     "branch that is not taken cannot be returned: the controller rejects ret_reg of an undefined register)",
-    "measurement registers are recycled at flush (a RegFuture of a measurement is read right after its flush)",
+    "measurement registers are recycled at flush (a RegFuture of a measurement is read right after its flush); its "
+    "use as a condition in LATER subroutines (before another register measurement) is outside HostSem and checked "
+    "model-free: executed with its flushes vs direct evaluation of the same statements in one flush",
     "operand combinations the SDK rejects loudly are out of scope: RegFuture as `other` of add(), a future-indexed "
     "Future as condition operand (both raise at flush)",
     "loops terminate (the generator only builds loops whose index reaches stop); values stay within 32 bits",
@@ -253,6 +255,33 @@ def run(ctx):
         prog = core + regs + [{"k": "flush"}]
         check_oracle(prog, [rng.randrange(2) for _ in range(64)], "second-connection-interleaved", interfere=True)
 
+    # -- register-held values carried ACROSS flushes: outcomes measured into M registers (and new_register()
+    #    values) in one flush, conditions on them in later flushes.  HostSem lets a measurement handle die at its
+    #    flush, so this class is checked model-free: the program with its flushes on the real Executor against the
+    #    direct evaluation of the same statements in ONE flush (flush placement must not change the results)
+    for _ in range(600 if ctx.thorough else 80):
+        prog = H.m_across_flushes(rng)
+        outs = [rng.randrange(2) for _ in range(64)]
+        res.evaluations += 1
+        res.count("ora:register-values-across-flushes")
+        st, det = H.oracle_flush_invariance(prog, outs)
+        res.count("oracle:" + st)
+        res.nontrivial.add(hash(H.dumps(prog) + H.dumps(outs[:16])))
+        if st == "fail":
+            small = prog
+            if sum(1 for x in res.failures if x["kf"] is None) < 3:
+                feat = det[0]["feature"]
+
+                def still(q):  # the same kind of failure; a raise must come from the controller, not the harness
+                    s2, d2 = H.oracle_flush_invariance(q, outs)
+                    return s2 == "fail" and any(x.get("feature") == feat and (feat != "raise" or x.get("exec_err"))
+                                                for x in d2)
+                small = H.shrink(prog, still, 150)
+                det = H.oracle_flush_invariance(small, outs)[1] or det
+            res.failures.append({"what": det[0]["what"], "kf": None,
+                                 "input": {"program": small, "outcomes": outs, "detail": det[:3],
+                                           "stream": "register-values-across-flushes"}})
+
     # -- small programs: every flush placement, both streams
     nSmall = 500 if ctx.thorough else 36
     for _ in range(nSmall):
@@ -272,6 +301,9 @@ def replay(ctx, payload):
     from harness import sdk as H
     inp = payload.get("failure", {}).get("input", {})
     prog, outs = inp.get("program"), inp.get("outcomes", []) + [0] * 64
-    st, det = H.oracle(prog, outs, interfere=inp.get("stream") == "second-connection-interleaved")
+    if inp.get("stream") == "register-values-across-flushes":
+        st, det = H.oracle_flush_invariance(prog, outs)
+    else:
+        st, det = H.oracle(prog, outs, interfere=inp.get("stream") == "second-connection-interleaved")
     print("replay:", st, json.dumps(det)[:1500])
     return 1 if st == "fail" else 0
